@@ -441,6 +441,7 @@ fn one(seed: u64, i: usize, keys: usize, walks: usize) -> DefRes {
         let (out, stats) = run_in_sim(&plan, move || evaluate(&s, walk_seed, walks));
         res.evals += 1;
         res.sim_ns += stats.sim_ns;
+        res.stalls_fired += stats.stalls_fired;
         match out {
             SimResult::Ok(e) => {
                 if !e.lifted {
